@@ -1,10 +1,10 @@
 CONSTANTS
-  Trees <- Trees2
+  Trees <- TreesQ
   Chunks = 2
   LockChunks = 2
   TaskArgs <- TaskArgsSmall
   OpsIds <- Ops1
-  MaxCrash = 2
+  MaxCrash = 1
   MaxCreate = 2
   MaxHist = 1
   MaxHistUnlisted = 1
